@@ -105,7 +105,7 @@ def generate(job):
         for _ in range(n):
             k = ro.weighted([("fit", 6), ("set_params", 2), ("reinit", 1), ("save_restart", 3)])
             if k == "fit":
-                ops.append({"k": "fit", "method": ro.choice(FAST), "maxiter": ro.choice([1, 2, 3, 5, 8]), "grad_scale": ro.choice([1.0, 1.0, 2.0])})
+                ops.append({"k": "fit", "method": ro.choice(FAST), "maxiter": ro.choice([1, 2, 3, 5, 8]), "grad_scale": ro.choice([1.0, 1.0, 2.0]), "jac": ro.choice([True, True, True, True, "2-point"])})
             elif k == "set_params":
                 ops.append({"k": "set_params", "seed": ro.randrange(1 << 30), "scale": ro.choice([0.3, 1.0])})
             elif k == "reinit":
@@ -293,7 +293,11 @@ class Session:
             return
         mkey = method
         try:
-            res = config.fit([self.data], [self.phsp], method=method, maxiter=op.get("maxiter"), grad_scale=op.get("grad_scale", 1.0), batch=self.spec["batch"], print_init_nll=False)
+            kw = {}
+            if op.get("jac", True) is not True and method in ("BFGS", "CG"):
+                kw["jac"] = op["jac"]
+                mkey = method + "(jac=%s)" % op["jac"]
+            res = config.fit([self.data], [self.phsp], method=method, maxiter=op.get("maxiter"), grad_scale=op.get("grad_scale", 1.0), batch=self.spec["batch"], print_init_nll=False, **kw)
         except Exception as e:
             import traceback
 
